@@ -68,6 +68,8 @@ def check_case(case, want=("C01",)):
         for sig, det in r5.viol:
             if len(sig) > 1 and sig[1].startswith("C01."):
                 res.v(("C01.after-edit",) + tuple(sig[1:]), det)
+            elif sig[0] == "C05.after-edit-solve-raises":   # solve() raising something other than RuntimeError / 'Unstable system' on a well-formed tree
+                res.v(("C01.after-edit", "solve-raises") + tuple(sig[1:]), det)
         res.stats.update(r5.stats)
         res.nontrivial = r5.nontrivial
         return res
